@@ -17,6 +17,13 @@
  *
  * env: VERIF_C15_STRATEGY=<value of HWLOC_CPUKINDS_RANKING>  (default: variable unset)
  *      VERIF_C15_PROFILE=<n>  force a generator profile
+ *      VERIF_C15_IREG=1       side stream: about a third of the registrations go through the INTERNAL entry point
+ *                             hwloc_internal_cpukinds_register (op `ireg`, flags 0 / OVERWRITE / invalid, no ranking
+ *                             afterwards), as the discovery backends do.  Finding class kept out of the generated
+ *                             stream unless VERIF_C15_INCLUDE_SPLIT_FORCED=1 (flags then become OVERWRITE): a flags-0
+ *                             registration that SPLITS a kind whose forced efficiency is known and different — the C code
+ *                             gives the split-off kind the new value instead of keeping the first one (see
+ *                             Props/C15.lean C15_finding_split_drops_forced); a fix of that must not raise an alarm here
  */
 #include "private/autogen/config.h"
 #include "hwloc.h"
@@ -33,7 +40,8 @@ static int include_stale;
 static unsigned long st_ops, st_reg, st_regskip, st_reg_einval, st_restrict_ok, st_restrict_einval,
   st_restrict_removed, st_dup, st_xml, st_refresh, st_by_idx, st_by_exdev, st_by_enoent, st_by_einval,
   st_ranked, st_unranked, st_nr[6], st_split, st_merge, st_newtail, st_outside_root, st_stale_seen,
-  st_info_einval, st_info_enoent, st_episodes;
+  st_info_einval, st_info_enoent, st_episodes, st_ireg, st_ireg_class_avoided;
+static int include_split_forced;
 
 static const char *errname(void) {
   switch (errno) {
@@ -125,6 +133,23 @@ static int would_hit_stale(hwloc_const_bitmap_t cs) {
   return hit;
 }
 
+/* would a flags-0 internal registration split a kind whose forced efficiency is known and differs from `forced`? */
+static int would_split_known_forced(hwloc_const_bitmap_t cs, int forced) {
+  unsigned nr = T->nr_cpukinds; int r = 0;
+  hwloc_bitmap_t cur = hwloc_bitmap_dup(cs), tmp = hwloc_bitmap_alloc();
+  for (unsigned i = 0; i < nr && !hwloc_bitmap_iszero(cur); i++) {
+    int res = hwloc_bitmap_compare_inclusion(cur, T->cpukinds[i].cpuset);
+    if (res == HWLOC_BITMAP_INTERSECTS || res == HWLOC_BITMAP_INCLUDED) {
+      if (T->cpukinds[i].forced_efficiency != HWLOC_CPUKIND_EFFICIENCY_UNKNOWN && T->cpukinds[i].forced_efficiency != forced) r = 1;
+      hwloc_bitmap_and(tmp, cur, T->cpukinds[i].cpuset);
+      hwloc_bitmap_andnot(cur, cur, tmp);
+    } else if (res == HWLOC_BITMAP_CONTAINS || res == HWLOC_BITMAP_EQUAL)
+      hwloc_bitmap_andnot(cur, cur, T->cpukinds[i].cpuset);
+  }
+  hwloc_bitmap_free(cur); hwloc_bitmap_free(tmp);
+  return r;
+}
+
 static void new_topology(unsigned npu) {
   char desc[32];
   if (T) hwloc_topology_destroy(T);
@@ -174,6 +199,41 @@ static void exec_line(const char *orig) {
     fprintf(fops, "%s\n", eff); show_obs(); return;
   }
   if (!T) new_topology(12);
+  if (!strcmp(op, "ireg") || !strcmp(op, "iregskip")) {
+    /* hwloc_internal_cpukinds_register(topology, cpuset (ownership passes to hwloc), forced, infos, flags); no ranking */
+    if (nt < 4 || !strcmp(tok[1], "NULL")) { fprintf(fops, "%s\n", eff); fprintf(fout, "bad-op\n"); return; }
+    hwloc_bitmap_t cs = parseset(tok[1]);
+    int forced = atoi(tok[2]);
+    unsigned long flags = strtoul(tok[3], NULL, 10);
+    struct hwloc_info_s arr[16]; unsigned n = 0;
+    for (int i = 4; i < nt && n < 16; i++) {
+      char *eq = strchr(tok[i], '=');
+      if (!eq) continue;
+      *eq = 0; arr[n].name = tok[i]; arr[n].value = eq + 1; n++;
+    }
+    struct hwloc_infos_s infos = { arr, n, n };
+    int hit = 0;
+    if (!hwloc_bitmap_iszero(cs) && !(flags & ~1UL)) hit = would_hit_stale(cs);
+    if (!strcmp(op, "iregskip") || (hit && !include_stale)) {
+      if (!strcmp(op, "ireg")) memmove(eff + 8, eff + 4, strlen(eff + 4) + 1), memcpy(eff, "iregskip", 8);
+      fprintf(fops, "%s\n", eff);
+      fprintf(fout, "skipped stalehit=%d\n", hit);
+      st_regskip++;
+      hwloc_bitmap_free(cs);
+      return;
+    }
+    fprintf(fops, "%s\n", eff);
+    fflush(fops);
+    int empty = hwloc_bitmap_iszero(cs);
+    errno = 0;
+    int rc = hwloc_internal_cpukinds_register(T, cs, forced, (n == 0 && (forced & 1) == 0) ? NULL : &infos, flags);
+    /* the callee frees or keeps the cpuset except on the invalid-flags path */
+    if (rc < 0 && !empty) hwloc_bitmap_free(cs);
+    st_ireg++;
+    fprintf(fout, "rc=%s stalehit=%d ", rc < 0 ? errname() : "ok", hit);
+    show_obs();
+    return;
+  }
   if (!strcmp(op, "reg") || !strcmp(op, "regskip")) {
     hwloc_bitmap_t cs = parseset(tok[1]);
     int forced = atoi(tok[2]);
@@ -379,6 +439,8 @@ static void generate(unsigned long nops) {
   static const unsigned npus[] = { 8, 12, 12, 16 };
   const char *pf = getenv("VERIF_C15_PROFILE");
   const char *strat = getenv("VERIF_C15_STRATEGY");
+  int ireg = getenv("VERIF_C15_IREG") && atoi(getenv("VERIF_C15_IREG"));
+  include_split_forced = getenv("VERIF_C15_INCLUDE_SPLIT_FORCED") && atoi(getenv("VERIF_C15_INCLUDE_SPLIT_FORCED"));
   sprintf(line, "env %s", strat ? strat : "dflt");
   exec_line(line);
   while (st_ops < nops) {
@@ -399,7 +461,17 @@ static void generate(unsigned long nops) {
         regno++;
         unsigned long flags = rng_chance(2) ? (1UL << rng_below(4)) : 0;
         if (rng_chance(1)) strcpy(set, "NULL");
-        sprintf(line, "reg %s %d %lu%s", set, f, flags, infos);
+        if (ireg && strcmp(set, "NULL") && rng_chance(35)) {
+          unsigned d = rng_below(100);
+          flags = d < 60 ? 0 : d < 90 ? 1 : (2UL << rng_below(3)) | rng_below(2);
+          if (!flags && !include_split_forced) {
+            hwloc_bitmap_t b = parseset(set);
+            if (would_split_known_forced(b, f)) { flags = 1; st_ireg_class_avoided++; }
+            hwloc_bitmap_free(b);
+          }
+          sprintf(line, "ireg %s %d %lu%s", set, f, flags, infos);
+        } else
+          sprintf(line, "reg %s %d %lu%s", set, f, flags, infos);
         exec_line(line);
       } else if (c < 70) {
         unsigned long root = hwloc_bitmap_to_ulong(hwloc_get_root_obj(T)->cpuset), m;
@@ -457,7 +529,7 @@ int main(int argc, char **argv) {
 #define S(n) fprintf(fs, #n " %lu\n", st_##n)
     S(ops); S(episodes); S(reg); S(regskip); S(reg_einval); S(restrict_ok); S(restrict_einval); S(restrict_removed);
     S(dup); S(xml); S(refresh); S(by_idx); S(by_exdev); S(by_enoent); S(by_einval); S(ranked); S(unranked);
-    S(split); S(merge); S(newtail); S(outside_root); S(stale_seen); S(info_einval); S(info_enoent);
+    S(split); S(merge); S(newtail); S(outside_root); S(stale_seen); S(info_einval); S(info_enoent); S(ireg); S(ireg_class_avoided);
     for (int i = 0; i < 6; i++) fprintf(fs, "nr_%d%s %lu\n", i, i == 5 ? "plus" : "", st_nr[i]);
     fclose(fs);
   }
